@@ -695,6 +695,9 @@ class Expression(Element, ABC):
         if isinstance(expression, One):
             return self
         elif isinstance(expression, Fraction):
+            if isinstance(expression.numerator, One):
+                # dividing by 1/x is multiplying by x, there is no denominator of one to keep
+                return self * expression.denominator
             return Fraction(self * expression.denominator, expression.numerator)
         else:
             return Fraction(self, expression)
